@@ -331,6 +331,69 @@ theorem lost_owner_stopped {T : Tbl} (hT : Tbl.WF T) (al : Nat → Bool) (src na
       rw [h0] at this; simp at this
   · exact absurd h0 hn0
 
+/-- the state of `Unregister(name)` after both tables are updated, before any listener is told: the
+    invariant with the woken waiters exempt, and they are idle when the name is not 0 -/
+theorem unregNotify_mid {C W : List Nat} {s : State} (h : Inv C W none s) (src name : Nat) (list : List Nat)
+    (hf : Tbl.find s.notify (src, name) = some list) (hside : C = [] ∨ name = 0 ∨ 100 ≤ src) :
+    Inv C ((Tbl.purge s.alive s.waitFor src name list []).2.reverse ++ W) none
+        ({ ({ s with waitFor := (Tbl.purge s.alive s.waitFor src name list []).1 } : State) with
+          notify := Tbl.removeKey s.notify (src, name) }) ∧
+      (name ≠ 0 → C = [] ∧ ∀ l ∈ (Tbl.purge s.alive s.waitFor src name list []).2.reverse,
+        IdleP ({ ({ s with waitFor := (Tbl.purge s.alive s.waitFor src name list []).1 } : State) with
+          notify := Tbl.removeKey s.notify (src, name) }) l) := by
+  have hg : Tbl.getD s.notify (src, name) = list := Tbl.find_eq_getD_of_some hf
+  have hne : Tbl.getD s.notify (src, name) ≠ [] := by rw [hg]; exact h.n.wfN.find_ne_nil hf
+  have hmir : TblMirror (Tbl.removeKey s.notify (src, name)) (Tbl.purge s.alive s.waitFor src name list []).1 := by
+    have := h.tab.mir.purge_removeKey s.alive src name [] (fun l hl => h.waiters_alive src name l hl)
+    rw [hg] at this; exact this
+  have h1 : Inv C ((Tbl.purge s.alive s.waitFor src name list []).2.reverse ++ W) none
+      ({ ({ s with waitFor := (Tbl.purge s.alive s.waitFor src name list []).1 } : State) with
+        notify := Tbl.removeKey s.notify (src, name) }) := by
+    apply h.setTables _ _ (h.n.wfN.removeKey _) (Tbl.purge_WF _ h.n.wfW _ _ _ _) (Tbl.Sub.removeKey _ _)
+      (Tbl.Sub.purge _ _ _ _ _ _) hmir (fun x m => List.mem_append_right _ m)
+    intro x th hx hw ho
+    by_cases hno : Tbl.hasOwner (Tbl.purge s.alive s.waitFor src name list []).1 x = true
+    · exact Or.inr hno
+    · left
+      apply List.mem_append_left
+      rw [List.mem_reverse]
+      exact lost_owner_stopped h.n.wfW s.alive src name list [] ho hno
+  -- a waiter woken under a name other than 0 is idle
+  have hidle : name ≠ 0 → C = [] ∧ ∀ l ∈ (Tbl.purge s.alive s.waitFor src name list []).2.reverse, IdleP s l := by
+    intro hn
+    have hC : C = [] := by
+      rcases hside with e | e | e
+      · exact e
+      · exact absurd e hn
+      · exact absurd (h.n.n1 src name e hne) hn
+    refine ⟨hC, ?_⟩
+    intro l hl
+    rw [List.mem_reverse] at hl
+    rcases Tbl.purge_stopped s.alive s.waitFor src name list [] l hl with e | ⟨_, _, e3⟩
+    · simp at e
+    · have hown : Tbl.hasOwner s.waitFor l = true :=
+        (h.n.wfW.hasOwner_iff l).2 ⟨name, List.ne_nil_of_mem e3⟩
+      rcases h.lnk.linkC l hown with m | ⟨th, hth, hw⟩
+      · rw [hC] at m; simp at m
+      · refine ⟨(h.n.range l th hth).2, ?_⟩
+        intro th0 h0
+        rw [hth] at h0; cases h0
+        left
+        cases hv : th.vm with
+        | idling => rfl
+        | _ =>
+          exfalso
+          rcases h.lnk.f4 l th hth hw (by rw [hv]; simp) with e | e
+          · cases e
+          · exact hn (e name (List.ne_nil_of_mem e3))
+  have g1 : G s ({ ({ s with waitFor := (Tbl.purge s.alive s.waitFor src name list []).1 } : State) with
+        notify := Tbl.removeKey s.notify (src, name) }) := G.of_eq rfl rfl rfl rfl
+  have hidle1 : name ≠ 0 → C = [] ∧ ∀ l ∈ (Tbl.purge s.alive s.waitFor src name list []).2.reverse,
+      IdleP ({ ({ s with waitFor := (Tbl.purge s.alive s.waitFor src name list []).1 } : State) with
+        notify := Tbl.removeKey s.notify (src, name) }) l :=
+    fun hn => ⟨(hidle hn).1, fun l hl => ((hidle hn).2 l hl).of_g g1⟩
+  exact ⟨h1, hidle1⟩
+
 theorem unregNotify_inv {fuel : Nat} (hswf : ISwf (stoppedWaitFor fuel)) (hsn : ISn (stoppedNotify fuel))
     {C W : List Nat} {s : State} (h : Inv C W none s) (src name : Nat) (hside : C = [] ∨ name = 0 ∨ 100 ≤ src) :
     Ok (unregNotify (stoppedWaitFor fuel) (stoppedNotify fuel) s src name)
@@ -342,58 +405,10 @@ theorem unregNotify_inv {fuel : Nat} (hswf : ISwf (stoppedWaitFor fuel)) (hsn : 
   · cases hf : Tbl.find s.notify (src, name) with
     | none => exact Ok.pure ⟨h, G.refl s⟩
     | some list =>
-      have hg : Tbl.getD s.notify (src, name) = list := Tbl.find_eq_getD_of_some hf
-      have hne : Tbl.getD s.notify (src, name) ≠ [] := by rw [hg]; exact h.n.wfN.find_ne_nil hf
       simp only [unregisterTargets_eq_purge, wakeLoop]
-      have hmir : TblMirror (Tbl.removeKey s.notify (src, name)) (Tbl.purge s.alive s.waitFor src name list []).1 := by
-        have := h.tab.mir.purge_removeKey s.alive src name [] (fun l hl => h.waiters_alive src name l hl)
-        rw [hg] at this; exact this
-      have h1 : Inv C ((Tbl.purge s.alive s.waitFor src name list []).2.reverse ++ W) none
-          ({ ({ s with waitFor := (Tbl.purge s.alive s.waitFor src name list []).1 } : State) with
-            notify := Tbl.removeKey s.notify (src, name) }) := by
-        apply h.setTables _ _ (h.n.wfN.removeKey _) (Tbl.purge_WF _ h.n.wfW _ _ _ _) (Tbl.Sub.removeKey _ _)
-          (Tbl.Sub.purge _ _ _ _ _ _) hmir (fun x m => List.mem_append_right _ m)
-        intro x th hx hw ho
-        by_cases hno : Tbl.hasOwner (Tbl.purge s.alive s.waitFor src name list []).1 x = true
-        · exact Or.inr hno
-        · left
-          apply List.mem_append_left
-          rw [List.mem_reverse]
-          exact lost_owner_stopped h.n.wfW s.alive src name list [] ho hno
-      -- a waiter woken under a name other than 0 is idle
-      have hidle : name ≠ 0 → C = [] ∧ ∀ l ∈ (Tbl.purge s.alive s.waitFor src name list []).2.reverse, IdleP s l := by
-        intro hn
-        have hC : C = [] := by
-          rcases hside with e | e | e
-          · exact e
-          · exact absurd e hn
-          · exact absurd (h.n.n1 src name e hne) hn
-        refine ⟨hC, ?_⟩
-        intro l hl
-        rw [List.mem_reverse] at hl
-        rcases Tbl.purge_stopped s.alive s.waitFor src name list [] l hl with e | ⟨_, _, e3⟩
-        · simp at e
-        · have hown : Tbl.hasOwner s.waitFor l = true :=
-            (h.n.wfW.hasOwner_iff l).2 ⟨name, List.ne_nil_of_mem e3⟩
-          rcases h.lnk.linkC l hown with m | ⟨th, hth, hw⟩
-          · rw [hC] at m; simp at m
-          · refine ⟨(h.n.range l th hth).2, ?_⟩
-            intro th0 h0
-            rw [hth] at h0; cases h0
-            left
-            cases hv : th.vm with
-            | idling => rfl
-            | _ =>
-              exfalso
-              rcases h.lnk.f4 l th hth hw (by rw [hv]; simp) with e | e
-              · cases e
-              · exact hn (e name (List.ne_nil_of_mem e3))
+      obtain ⟨h1, hidle1⟩ := unregNotify_mid h src name list hf hside
       have g1 : G s ({ ({ s with waitFor := (Tbl.purge s.alive s.waitFor src name list []).1 } : State) with
             notify := Tbl.removeKey s.notify (src, name) }) := G.of_eq rfl rfl rfl rfl
-      have hidle1 : name ≠ 0 → C = [] ∧ ∀ l ∈ (Tbl.purge s.alive s.waitFor src name list []).2.reverse,
-          IdleP ({ ({ s with waitFor := (Tbl.purge s.alive s.waitFor src name list []).1 } : State) with
-            notify := Tbl.removeKey s.notify (src, name) }) l :=
-        fun hn => ⟨(hidle hn).1, fun l hl => ((hidle hn).2 l hl).of_g g1⟩
       have P := presAll fuel
       split
       · refine (hsn C _ _ src h1).bind ?_ (fun p2 => ?_)
